@@ -17,6 +17,7 @@ import FV.Model.Headers
 import FV.Spec.V0Layout
 import FV.Proofs.Headers
 import FV.Proofs.Context
+import FV.Proofs.HeadersTransport
 
 namespace FV.C04
 open FV
@@ -235,5 +236,66 @@ example : Small [([120], [121]), (opIdHeader, [55])] ∧
     (Hdrs.keys [([120], [121]), (opIdHeader, [55])]).Nodup ∧
     Hdrs.get? [([120], [121]), (opIdHeader, [55])] opIdHeader = some [55] := by
   refine ⟨by unfold Small; decide, by decide, by decide⟩
+
+/-! ### The transport under the FProtocol: any chunking, any advisory `RemainingBytes`
+
+`FProtocolFactory` composes with "any existing Thrift transports"; `readHeader` sees the transport through
+`io.ReadFull` only (model: FV.Model.HeadersTransport). A transport is ANY way of handing the carried bytes
+out in pieces plus ANY function reporting `RemainingBytes()`; what is read does not depend on either. The
+differential suite `c04tr` ties this to the real code over TMemoryBuffer, frugal's and thrift's framed
+transports, buffered, zlib, pipe-fed stream transports and hand-written ones reporting 0 / 1 / exact /
+max-uint64, with blocks on both sides of every size constant of lib/go. -/
+
+/-- What `readHeader` returns over a transport is what the stream reader returns on the carried bytes: two
+transports that carry the same bytes — in whatever pieces, reporting whatever as remaining — give the same
+result (map, error class, and the bytes left for the payload reader). -/
+theorem c04_read_independent_of_chunking_and_remaining (t t' : RdTransport)
+    (h : t.chunks.flatten = t'.chunks.flatten) :
+    readHeaderT t = readHeaderT t' ∧ readHeaderT t = unmarshalStream t.chunks.flatten ∧
+      (∀ ctr, readRequestHeaderT t ctr = readRequestHeaderT t' ctr) ∧
+      (∀ c, readResponseHeaderT c t = readResponseHeaderT c t') := by
+  have e : t.bytes = t'.bytes := h
+  refine ⟨by rw [readHeaderT_eq, readHeaderT_eq, e], readHeaderT_eq t, ?_, ?_⟩
+  · intro ctr; rw [readRequestHeaderT_eq, readRequestHeaderT_eq, e]
+  · intro c; rw [readResponseHeaderT_eq, readResponseHeaderT_eq, e]
+
+/-- Every header map that can be written is read back identically over ANY transport that carries the
+written bytes followed by the payload — whatever the size of the block (below 2^31), the pieces, the
+reported remaining byte count — and the payload is left untouched. -/
+theorem c04_transport_roundtrip (hs : Hdrs) (p : Bytes) (chunks : List Bytes) (remaining : List Bytes → Nat)
+    (hnd : hs.keys.Nodup) (h : Small hs) (hc : chunks.flatten = marshal hs ++ p) :
+    readHeaderT ⟨chunks, remaining⟩ = .ok (hs, p) := by
+  rw [readHeaderT_eq]
+  show unmarshalStream chunks.flatten = _
+  rw [hc, c04_stream_roundtrip hs p hnd h]
+
+/-- The same at the FProtocol layer: `ReadRequestHeader` over any transport. -/
+theorem c04_transport_read_request_header (hs : Hdrs) (p o : Bytes) (ctr : Nat) (chunks : List Bytes)
+    (remaining : List Bytes → Nat) (hnd : hs.keys.Nodup) (h : Small hs) (ho : hs.get? opIdHeader = some o)
+    (hc : chunks.flatten = marshal hs ++ p) :
+    readRequestHeaderT ⟨chunks, remaining⟩ ctr =
+      .ok (⟨hs.without opIdHeader ++ [(opIdHeader, natDigits (ctr + 1))],
+            replyIds o ((hs.get? cidHeader).getD [])⟩, p) := by
+  rw [readRequestHeaderT_eq]
+  show readRequestHeader chunks.flatten ctr = _
+  rw [hc, c04_read_request_header hs p o ctr hnd h ho]
+
+/-- Non-vacuity: the bytes of a two-header map and a payload cut into single bytes with an empty piece in
+between, on a transport that reports 0 bytes remaining, and the same bytes in one piece on a transport that
+reports "unknown": both read back the map and leave the payload. -/
+example :
+    let hs : Hdrs := [([120], [121, 122]), (opIdHeader, [55])]
+    let b := marshal hs ++ [1, 2, 3]
+    readHeaderT ⟨b.map (fun x => [x]) ++ [[]], fun _ => 0⟩ = .ok (hs, [1, 2, 3]) ∧
+    readHeaderT ⟨[b.take 7, [], b.drop 7], fun _ => 1⟩ = .ok (hs, [1, 2, 3]) ∧
+    readHeaderT ⟨[b], fun _ => 18446744073709551615⟩ = .ok (hs, [1, 2, 3]) := by
+  intro hs b
+  have hnd : hs.keys.Nodup := by decide
+  have hsm : Small hs := by unfold Small; decide
+  refine ⟨c04_transport_roundtrip hs [1, 2, 3] _ _ hnd hsm ?_, c04_transport_roundtrip hs [1, 2, 3] _ _ hnd hsm ?_,
+    c04_transport_roundtrip hs [1, 2, 3] _ _ hnd hsm ?_⟩
+  · decide
+  · decide
+  · decide
 
 end FV.C04
